@@ -180,3 +180,18 @@ int main(){ std::vector<double> want = {%s};
         for(int k=0;k<r.size();++k) if(r[k]!=want[k]) return 1; }
   catch(const std::exception& e){ std::printf("threw: %%s\\n", e.what()); return 1; } return 0; }
 ''' % (','.join(str(v) for v in want), a, b, s)
+
+
+@adapter(r'Compressor::_compute_gain')
+def compressor_curve(o):
+    m = o['model'] or {}
+    T, R, W = frac(m.get('this.T_', '-10')), I(m, 'this.R_', 2), frac(m.get('this.W_', '4'))
+    return HDR + '''
+// zero attack/release: the output gain is the static curve; sweep the knee region and compare with the documented curve
+int main(){ const double T=%s, W=%s; const int R=%d; Compressor c(48000, T, R, W, 0.0, 0.0); int bad=0;
+  for(int s=-400; s<=400; ++s){ double lvl = T + (W>0? W:1.0)*s/300.0; double xin = std::pow(10.0, lvl/20.0);
+    auto r = c.process(arr_real{xin}); double gdb = 20*std::log10(r.gain[0]);
+    double want = 0; if(lvl >= T+W/2) want = T + (lvl-T)/R - lvl; else if(W>0 && lvl > T-W/2) want = (1.0/R-1)*(lvl-T+W/2)*(lvl-T+W/2)/(2*W);
+    if(std::fabs(gdb-want) > 1e-6){ if(!bad) std::printf("level %%g dB: gain %%g dB, curve %%g dB\\n", lvl, gdb, want); ++bad; } }
+  return bad?1:0; }
+''' % (T, W, R)
